@@ -35,3 +35,25 @@ pub fn good_early_can_be_used(lhs: &Type, rhs: &Type) -> bool {
     }
     lhs.matches(rhs)
 }
+
+fn both_fit(lhs: &Type, rhs: &Type) -> bool {
+    if !lhs.matches(rhs) {
+        return false;
+    }
+    lhs.element_type().is_none() || rhs.element_type().is_some()
+}
+
+/// the queries are asked in a private helper (must be accepted)
+pub fn good_helper_can_be_used(lhs: &Type, rhs: &Type) -> bool {
+    both_fit(lhs, rhs)
+}
+
+/// ... and the helper handed the operands the wrong way round (must be reported)
+pub fn swapped_helper_can_be_used(lhs: &Type, rhs: &Type) -> bool {
+    both_fit(rhs, lhs)
+}
+
+/// `is_some_and` on the answer (must be accepted)
+pub fn good_some_and_can_be_used(lhs: &Type, rhs: &Type) -> bool {
+    lhs.element_type().is_none() || rhs.element_type().is_some_and(|_| lhs.matches(rhs))
+}
